@@ -367,8 +367,9 @@ def _check_blowup(case):
             rel = np.abs(y - ex) / (case["rtol"] * (1 + np.abs(ex)) * ex ** 2)
             if np.any(rel > KACC * math.sqrt(len(t))):
                 k = int(np.argmax(rel))
-                viols.append(V("inaccurate_state_recorded", "{}: near the pole state {!r} was recorded at t={!r} (exact {!r}), error {:.1f} x tolerance".format(
-                    method, float(y[k]), float(t[k]), float(ex[k]), float(rel[k])), fam, **attrs))
+                # the first attempt of the run reaches across the pole when t0 + |dt| >= 1 (its increment is garbage)
+                viols.append(V("inaccurate_state_recorded", "{}: near the pole state {!r} was recorded at t={!r} (exact {!r}), error {:.1f} x tolerance; initial dt {!r}".format(
+                    method, float(y[k]), float(t[k]), float(ex[k]), float(rel[k]), case["dt"]), fam, first_attempt_crosses_pole=bool(case["t0"] + abs(case["dt"]) >= 1.0), **attrs))
     else:
         if err is None:
             ex = np.array([exact(tt) for tt in t])
